@@ -20,9 +20,20 @@
 // changed queue_tail (the path it stored) or queue_head (the path it took).
 // Last line: "END rc=<exit status>" or "DEADLOCK <pending>".
 //
+// Output discipline (gen/GenOutput.v, theorems output_under_mutex / match_group_atomic): the stdio
+// functions are interposed at link time (-Wl,--wrap=printf,...: every call from cli/yara.c AND from
+// libyara.a).  For every call that writes to stdout or stderr from a scanning thread the shim checks
+// in its own mutex bookkeeping that the calling thread owns the output mutex; a write without it is
+// logged as "UNLOCKED-WRITE <tid> <stdout|stderr> <first bytes>".  Before END one line per scanning
+// thread "EVENTS <tid> <string>" gives its sequence of output-mutex and output events
+// (L lock, U unlock, o one stdio call to stdout, e one to stderr), which checks/c18.py runs through
+// the automaton of the generated model (must be a prefix of an execution of out_worker), and
+// "WRITES <locked stdout> <unlocked stdout> <locked stderr> <unlocked stderr> <main thread>".
+//
 // The names of the shared objects of cli/yara.c come from the translator (lib/genqueue.py) as
-// -DQ_HEAD=.. -DQ_TAIL=.. -DQ_RING=.. -DQ_MUTEX=.. -DQ_USED=.. -DQ_UNUSED=.. -DQ_SLOTS=..
+// -DQ_HEAD=.. -DQ_TAIL=.. -DQ_RING=.. -DQ_MUTEX=.. -DQ_USED=.. -DQ_UNUSED=.. -DQ_SLOTS=.. -DQ_OUTMUTEX=..
 #include <pthread.h>
+#include <stdarg.h>
 #include <semaphore.h>
 #include <stdint.h>
 #include <stdio.h>
@@ -40,10 +51,19 @@ extern int Q_HEAD;
 extern int Q_TAIL;
 extern struct { char* path; } Q_RING[];
 extern MUTEX Q_MUTEX;
+extern MUTEX Q_OUTMUTEX;
 extern SEMAPHORE Q_USED;
 extern SEMAPHORE Q_UNUSED;
 
 int yara_main(int argc, const char** argv);
+
+int __real_fprintf(FILE*, const char*, ...);
+int __real_vfprintf(FILE*, const char*, va_list);
+int __real_puts(const char*);
+int __real_putchar(int);
+int __real_fputs(const char*, FILE*);
+int __real_fputc(int, FILE*);
+size_t __real_fwrite(const void*, size_t, size_t, FILE*);
 
 #define MAXT 40
 enum { K_NONE = 0, K_TAU, K_OTHER, K_WAIT, K_RELEASE, K_LOCK, K_UNLOCK, K_JOIN, K_START };
@@ -225,6 +245,86 @@ static void pick_next(int from)
   pthread_cond_signal(&T[c].cv);
 }
 
+// ---------------------------------------------------------------- output discipline monitor
+static char* evbuf[MAXT];
+static size_t evlen[MAXT], evcap[MAXT];
+static long wr_locked[2], wr_unlocked[2], wr_main, unlocked_logged;
+
+static void ev_append(int t, char c)
+{
+  if (t <= 0 || t >= MAXT) return;
+  if (evlen[t] + 2 > evcap[t])
+  {
+    evcap[t] = evcap[t] ? evcap[t] * 2 : 4096;
+    evbuf[t] = (char*) realloc(evbuf[t], evcap[t]);
+  }
+  evbuf[t][evlen[t]++] = c;
+  evbuf[t][evlen[t]] = 0;
+}
+
+// one stdio call writing to stdout (which = 0) or stderr (which = 1) by the running thread
+static void note_write(int which, const char* what)
+{
+  if (me == 0) { wr_main++; return; }
+  pthread_mutex_lock(&G);
+  int held = find_mtx(&Q_OUTMUTEX)->owner == me;
+  ev_append(me, which ? 'e' : 'o');
+  if (held) wr_locked[which]++;
+  else
+  {
+    wr_unlocked[which]++;
+    if (unlocked_logged++ < 40)
+    {
+      char b[40];
+      int k = 0;
+      for (; what && what[k] && k < 32; k++) b[k] = (what[k] >= 33 && what[k] <= 126) ? what[k] : '_';
+      b[k] = 0;
+      __real_fprintf(trace, "UNLOCKED-WRITE %d %s %s\n", me, which ? "stderr" : "stdout", b);
+    }
+  }
+  pthread_mutex_unlock(&G);
+}
+
+static int which_stream(FILE* f) { return f == trace ? -1 : f == stdout ? 0 : f == stderr ? 1 : -1; }
+
+int __wrap_printf(const char* fmt, ...)
+{
+  va_list ap;
+  note_write(0, fmt);
+  va_start(ap, fmt);
+  int r = __real_vfprintf(stdout, fmt, ap);
+  va_end(ap);
+  return r;
+}
+int __wrap_vprintf(const char* fmt, va_list ap) { note_write(0, fmt); return __real_vfprintf(stdout, fmt, ap); }
+int __wrap_fprintf(FILE* f, const char* fmt, ...)
+{
+  va_list ap;
+  int w = which_stream(f);
+  if (w >= 0) note_write(w, fmt);
+  va_start(ap, fmt);
+  int r = __real_vfprintf(f, fmt, ap);
+  va_end(ap);
+  return r;
+}
+int __wrap_vfprintf(FILE* f, const char* fmt, va_list ap)
+{
+  int w = which_stream(f);
+  if (w >= 0) note_write(w, fmt);
+  return __real_vfprintf(f, fmt, ap);
+}
+int __wrap_puts(const char* s) { note_write(0, s); return __real_puts(s); }
+int __wrap_putchar(int c) { char b[2] = {(char) c, 0}; note_write(0, b); return __real_putchar(c); }
+int __wrap_fputs(const char* s, FILE* f) { int w = which_stream(f); if (w >= 0) note_write(w, s); return __real_fputs(s, f); }
+int __wrap_fputc(int c, FILE* f) { char b[2] = {(char) c, 0}; int w = which_stream(f); if (w >= 0) note_write(w, b); return __real_fputc(c, f); }
+int __wrap_putc(int c, FILE* f) { char b[2] = {(char) c, 0}; int w = which_stream(f); if (w >= 0) note_write(w, b); return __real_fputc(c, f); }
+size_t __wrap_fwrite(const void* p, size_t a, size_t b, FILE* f)
+{
+  int w = which_stream(f);
+  if (w >= 0) { char t[33]; size_t n = a * b < 32 ? a * b : 32; memcpy(t, p, n); t[n] = 0; note_write(w, t); }
+  return __real_fwrite(p, a, b, f);
+}
+
 // scheduling point: announce (kind, obj), wait to be chosen, perform the operation
 static void sched_point(int kind, void* obj, int target)
 {
@@ -245,8 +345,12 @@ static void sched_point(int kind, void* obj, int target)
   case K_LOCK:
     ((SMTX*) obj)->owner = me;
     if (((SMTX*) obj)->addr == &Q_MUTEX) { x->head_at_lock = Q_HEAD; x->tail_at_lock = Q_TAIL; }
+    if (((SMTX*) obj)->addr == &Q_OUTMUTEX) ev_append(me, 'L');
     break;
-  case K_UNLOCK: ((SMTX*) obj)->owner = -1; break;
+  case K_UNLOCK:
+    ((SMTX*) obj)->owner = -1;
+    if (((SMTX*) obj)->addr == &Q_OUTMUTEX) ev_append(me, 'U');
+    break;
   default: break;
   }
   pthread_mutex_unlock(&G);
@@ -379,6 +483,8 @@ int main(int argc, const char** argv)
   me = 0;
   int rc = yara_main(argc, argv);
   fflush(stdout);
+  for (int t = 1; t < nthr; t++) fprintf(trace, "EVENTS %d %s\n", t, evbuf[t] ? evbuf[t] : "-");
+  fprintf(trace, "WRITES %ld %ld %ld %ld %ld\n", wr_locked[0], wr_unlocked[0], wr_locked[1], wr_unlocked[1], wr_main);
   fprintf(trace, "END rc=%d\n", rc);
   fflush(trace);
   return rc;
